@@ -256,7 +256,7 @@ _BT = _BQ + [dict(P=2, N=5, start="Chebyshev"), dict(P=3, N=3, start="Chebyshev"
 _IQ = [dict(P=1, Nfile=5, Ngrid=3, basis="Chebyshev"), dict(P=2, Nfile=5, Ngrid=3, basis="Chebyshev"),
        dict(P=1, Nfile=5, Ngrid=3, basis="Cardinal")]
 _IT = _IQ + [dict(P=3, Nfile=5, Ngrid=3, basis="Chebyshev"), dict(P=1, Nfile=7, Ngrid=5, basis="Chebyshev"),
-             dict(P=2, Nfile=7, Ngrid=3, basis="Cardinal"), dict(P=2, Nfile=5, Ngrid=5, basis="Chebyshev")]
+             dict(P=2, Nfile=7, Ngrid=3, basis="Cardinal")]  # (equal sizes are not "a smaller grid": interpolateCollisionArray asserts strict decrease)
 
 HARNESSES = [
     HarnessDef("load", h_load, _LQ, _LT, max_paths=4, timeout_s=60,
